@@ -762,11 +762,12 @@ package rlwe
 //@   trusted opaque at the abstract level (the plaintext times the gadget vector is added to the rows: digit arithmetic); the plaintext must be in the NTT domain and in Montgomery form; writes the gadget ciphertexts and the buffer (which may be the plaintext itself)
 //@   requires isntt(pt) && mexp(pt) == 1
 //@   assigns buff
+//@   clobbers cts
 
 //@ afunc Encryptor.EncryptZero
 //@   trusted at call sites outside this package's own contracts: an encryption of zero into the receiver (verified per receiver kind under encryptZeroSk#ciphertext, encryptZeroSkFromC1(QP), encryptZeroPkNoP); the receiver must be an actual object, not a nil pointer in an interface
 //@   requires !isnil(unbox(ct))
-//@   assigns
+//@   clobbers ct
 
 // ---- Element.Resize itself (property C09, "no residue"): the components an element GAINS are new polynomials
 // ---- holding zero - not whatever an earlier, larger use left behind in the backing array - and the components
